@@ -324,3 +324,89 @@ theorem no_bp_no_pause (env : Env) (d : Dbg) (m : Machine) (w : World)
   exact ⟨_, rfl, rfl, rfl⟩
 
 end Lace.C11
+
+namespace Lace.C11
+open Lace Lace.Dbg Lace.Cmd Lace.DbgProofs
+
+/-- The status loop can end in a process exit only from inside a command (`eval`): at least one
+command was read. -/
+theorem actionLoop_exit_reads (env : Env) : ∀ (n : Nat) (d : Dbg) (m : Machine) (w : World) (instr : Option Sig)
+    (c : Nat) (d' : Dbg) (m' : Machine) (w' : World),
+    actionLoop env n d m w instr = .exit c d' m' w' → d.ncmds < d'.ncmds
+  | 0, d, m, w, instr, c, d', m', w' => by simp [actionLoop]
+  | n + 1, d, m, w, instr, c, d', m', w' => by
+    intro h
+    unfold actionLoop at h
+    split at h
+    · split at h
+      · simp at h
+      · rename_i cmd rest hc
+        split at h
+        · rename_i d1 m1 w1 hr
+          have hu := runCommand_upd env _ m w cmd d1 (by rw [hr]; rfl)
+          have h1 := (Adv.of_cmd hc hu).2
+          have h2 := actionLoop_exit_reads env n d1 m1 w1 instr c d' m' w' h
+          omega
+        · simp at h
+        · rename_i cd d1 m1 w1 hr
+          have hu := runCommand_upd env _ m w cmd d1 (by rw [hr]; rfl)
+          have h1 := (Adv.of_cmd hc hu).2
+          simp at h; obtain ⟨_, h2, _, _⟩ := h; rw [← h2]; exact h1
+        · simp at h
+    · split at h
+      · have := actionLoop_exit_reads env n _ m w instr c d' m' w' h
+        refine Nat.lt_of_le_of_lt ?_ this
+        split <;> exact Nat.le_refl _
+      · simp at h
+    · split at h <;> simp at h
+    · simp at h
+    · split at h <;> simp at h
+
+/-- **C11 (at the level of one loop iteration).** If control is at an address with an armed
+breakpoint, the iteration cannot execute anything before at least one command has been read:
+whatever this iteration does (execute, stutter, detach, end), the count of commands read has
+grown. -/
+theorem armed_iteration_reads (env : Env) (d : Dbg) (m : Machine) (w : World) (h : Armed d m.pc) :
+    match iter env true d m w with
+    | .cont _ d' _ _ _ => d.ncmds < d'.ncmds
+    | .done _ d' _ _ => d.ncmds < d'.ncmds
+    | .exit _ _ d' _ _ _ => d.ncmds < d'.ncmds
+    | .panic _ => True := by
+  have key : ∀ d' : Dbg, C12.Iter.dbg? (iter env true d m w) = some d' → d.ncmds < d'.ncmds := by
+    intro d' hd
+    unfold iter at hd
+    simp only [if_true] at hd
+    cases hn : nextAction env d m w with
+    | panic s => rw [hn] at hd; simp [C12.Iter.dbg?] at hd
+    | exit c d1 m1 w1 =>
+      -- `exit` comes out of a command (eval): a command was read
+      rw [hn] at hd; simp [C12.Iter.dbg?] at hd; rw [← hd]
+      rw [nextAction_eq] at hn
+      have := actionLoop_exit_reads env _ _ m w _ c d1 m1 w1 hn
+      rw [(preamble_facts d m).1] at this
+      exact this
+    | action a d1 m1 w1 =>
+      have hlt := bp_pause_before_exec env d m w h a d1 m1 w1 hn
+      rw [hn] at hd
+      cases a with
+      | stopDebugger => simp [C12.Iter.dbg?] at hd; rw [← hd]; exact hlt
+      | exitProgram => simp [C12.Iter.dbg?] at hd; rw [← hd]; exact hlt
+      | proceed =>
+        simp only at hd
+        split at hd
+        · simp [C12.Iter.dbg?] at hd; rw [← hd]; exact hlt
+        · split at hd
+          · simp [C12.Iter.dbg?] at hd; rw [← hd]; exact hlt
+          · rcases C16.execOne_cases env true
+              { d1 with icount := if d1.icount < 4294967295 then d1.icount + 1 else d1.icount,
+                        nexec := d1.nexec + 1 } m1 w1 with ⟨_, _, he⟩ | ⟨_, _, _, he⟩ | ⟨_, he⟩ <;>
+              (rw [he] at hd; simp [C12.Iter.dbg?] at hd)
+            · rw [← hd]; exact hlt
+            · rw [← hd]; exact hlt
+  cases hi : iter env true d m w with
+  | cont a d' m' w' e => exact key d' (by rw [hi]; rfl)
+  | done a d' m' w' => exact key d' (by rw [hi]; rfl)
+  | exit c a d' m' w' e => exact key d' (by rw [hi]; rfl)
+  | panic s => trivial
+
+end Lace.C11
